@@ -276,10 +276,34 @@ def add_reproducers(vs, pid):
     vs.reproducer_groups = [g["gid"] for g in groups]
 
 
+TLC_BATCH = 6000      # items per TLC start (the JSON file and the initial-state set stay small)
+
+
+def _merge_stats(a, b):
+    if a is None:
+        return dict(b)
+    for k in ("generated", "distinct"):
+        a[k] = a.get(k, 0) + b.get(k, 0)
+    a["depth"] = max(a.get("depth", 0), b.get("depth", 0))
+    a["batches"] = a.get("batches", 1) + 1
+    return a
+
+
 def validate_traces(items):
     """items: [{env, walk, obsL, obsB}].  Returns (verdicts, illegal, stats):
     verdicts[i] = TV record or None when the walk is not a behaviour of the
     specification at all (no finished behaviour)."""
+    if len(items) > TLC_BATCH:
+        verdicts, illegal, stats = [], [], None
+        for lo in range(0, len(items), TLC_BATCH):
+            v, ill, st = validate_traces(items[lo:lo + TLC_BATCH])
+            for x in v:
+                if x is not None:
+                    x["gid"] += lo
+            verdicts += v
+            illegal += [i + lo for i in ill]
+            stats = _merge_stats(stats, st)
+        return verdicts, illegal, stats
     path = _write_given(items)
     res = run_tlc("WireGiven", GIVEN_CONSTS, invariants=["AlignedEmit", "ZeroFillForward", "Mirror", "TDump"],
                   prefix=("TV", "ILLEGAL"), spec="TSpec", env={"GIVEN_FILE": path})
@@ -363,6 +387,13 @@ def layout_of(envs):
 def decide_decodes(items):
     """items: [{env, inp, ord}] -> (verdicts, stats): the reference decoder's
     (spec/WireDecGiven.tla) verdict record per item: verdict, reason, dwalk, pos."""
+    if len(items) > TLC_BATCH:
+        verdicts, stats = [], None
+        for lo in range(0, len(items), TLC_BATCH):
+            v, st = decide_decodes(items[lo:lo + TLC_BATCH])
+            verdicts += v
+            stats = _merge_stats(stats, st)
+        return verdicts, stats
     path = _write_given([{"env": it["env"], "inp": it["inp"], "ord": it["ord"]} for it in items])
     c = dict(GIVEN_CONSTS, FaultKinds="{}", DecOrders="{}")
     res = run_tlc("WireDecGiven", c, invariants=["DecoderInBounds", "AcceptConsumesAll", "DGDump"],
